@@ -1,102 +1,189 @@
 --------------------------------- MODULE PTM ---------------------------------
-(* Canonicalising modifications (vermouth.processors.canonicalize_modifications), judged on recorded runs (C14).
-   mol       == [nodes : Seq([id, resid, name, el, ptm : BOOLEAN]), edges : Seq(<<a, b>>)]      (ptm = flagged as unrecognised)
-   templates == Seq([name, nodes : Seq([key, name, el, ptm : BOOLEAN, newname]), edges : Seq(<<k1, k2>>)])   (newname "" = keep)
-   calls     == Seq([ptms : Seq([atoms, anchors]), resnodes : Seq(id), outcome : "identified" | "unknown", cover : Seq([t, match])])
-                one entry per group of unexplained atoms, as the real code formed it (interposed identify_ptms)
-   final     == Seq([id, name, labels : Seq(template name)]) - atoms still present afterwards
-   A template fits where it is an INDUCED subgraph whose anchor atoms (ptm = FALSE) match by NAME an atom that is not flagged
-   and whose added atoms (ptm = TRUE) match by ELEMENT a flagged atom.                                              *)
+(* Canonicalising modifications (vermouth.processors.canonicalize_modifications, with the part of repair_graph that hands
+   atoms over to it), judged on recorded runs (C14).  One record e per run of CanonicalizeModifications on one molecule;
+   atoms and template nodes are numbered by position (1..n), the driver keeps the real keys.
+
+   e.mol       == [nodes : Seq([resid, res, name, el, ptm : BOOLEAN, mods : Seq(template index), attrs : Seq(<<key, value>>)]),
+                   adj : Seq(Seq(atom))]
+                  the molecule that ENTERS CanonicalizeModifications (after RepairGraph).  ptm = flagged PTM_atom: an atom the
+                  residue template could not account for, or an atom that exists because a modification was REQUESTED
+                  (-modify / -nter / -cter: AnnotateMutMod + RepairGraph patch the reference block with the modification);
+                  mods = the requested modifications RepairGraph wrote on the atom (empty unless requested);
+                  res = the residue (chain, resid, insertion code) the atom belongs to, resid = its bare number
+   e.templates == Seq([name, nodes : Seq([name, el, ptm : BOOLEAN, rep : Seq(<<key, value>>)]), edges : Seq(<<k1, k2>>)])
+                  the force field's modifications; ptm = FALSE marks an anchor; rep = the `replace` attribute
+   e.calls     == Seq([ptms : Seq([atoms, anchors]), outcome : "identified" | "unknown", cover : Seq([t, match : Seq(<<atom, node>>)])])
+                  one entry per group the real code formed (interposed identify_ptms) with the placements it returned
+   e.final     == Seq([present : BOOLEAN, labels : Seq(template index), attrs : Seq(<<key, value>>)])  per atom of e.mol
+   e.warnings  == number of unknown-input warnings logged during the run
+   e.dropped   == Seq(atom description) unrecognised atoms RepairGraph removed from residues carrying a request (observation)
+   Attribute values are canonical strings ("s:CA", "None", "n:1.0"); only the keys some template replaces are recorded.
+
+   A template FITS where it is an INDUCED subgraph whose anchors (ptm = FALSE) match by NAME an atom that is not flagged and
+   whose added atoms (ptm = TRUE) match by ELEMENT a flagged atom that is still unexplained.
+   A REQUESTED modification is expected where RepairGraph put it: it is placed by atom NAME on exactly the atoms carrying it. *)
 EXTENDS Integers, Sequences, FiniteSets, TLC
 
 SeqSet(s) == {s[i] : i \in DOMAIN s}
 RangeOf(f) == {f[x] : x \in DOMAIN f}
-MNode(mol, n) == mol.nodes[CHOOSE i \in DOMAIN mol.nodes : mol.nodes[i].id = n]
-MAdj(mol, a, b) == \E i \in DOMAIN mol.edges : (mol.edges[i][1] = a /\ mol.edges[i][2] = b) \/ (mol.edges[i][1] = b /\ mol.edges[i][2] = a)
-TNode(t, k) == t.nodes[CHOOSE i \in DOMAIN t.nodes : t.nodes[i].key = k]
+Ids(mol) == DOMAIN mol.nodes
+Nbrs(mol, a) == SeqSet(mol.adj[a])
+MAdj(mol, a, b) == b \in Nbrs(mol, a)
 TAdj(t, a, b) == \E i \in DOMAIN t.edges : (t.edges[i][1] = a /\ t.edges[i][2] = b) \/ (t.edges[i][1] = b /\ t.edges[i][2] = a)
+AttrOf(s, k) == IF \E i \in DOMAIN s : s[i][1] = k THEN s[CHOOSE i \in DOMAIN s : s[i][1] = k][2] ELSE "absent"
 
-Flagged(mol) == {mol.nodes[i].id : i \in {j \in DOMAIN mol.nodes : mol.nodes[j].ptm}}
+Flagged(mol) == {n \in Ids(mol) : mol.nodes[n].ptm}
+IsExtra(mol, n) == mol.nodes[n].ptm \/ mol.nodes[n].mods # <<>>               \* what find_ptm_atoms starts from
+Extra(mol) == {n \in Ids(mol) : IsExtra(mol, n)}
+Unexplained(mol) == {n \in Ids(mol) : mol.nodes[n].ptm /\ mol.nodes[n].mods = <<>>}
 
-(* groups: connected sets of flagged atoms with the unflagged atoms they are bonded to *)
+(* groups: connected sets of extra atoms with the other atoms they are bonded to *)
 RECURSIVE Grow(_, _)
-Grow(mol, S) == LET S2 == S \cup {n \in Flagged(mol) : \E s \in S : MAdj(mol, s, n)} IN IF S2 = S THEN S ELSE Grow(mol, S2)
-Component(mol, a) == Grow(mol, {a})
-Components(mol) == {Component(mol, a) : a \in Flagged(mol)}
-AnchorsOf(mol, C) == {n \in {mol.nodes[i].id : i \in DOMAIN mol.nodes} : n \notin Flagged(mol) /\ \E c \in C : MAdj(mol, c, n)}
+Grow(mol, S) == LET S2 == S \cup {n \in UNION {Nbrs(mol, s) : s \in S} : IsExtra(mol, n)} IN IF S2 = S THEN S ELSE Grow(mol, S2)
+Components(mol) == {Grow(mol, {a}) : a \in Extra(mol)}
+AnchorsOf(mol, C) == {n \in UNION {Nbrs(mol, c) : c \in C} : ~IsExtra(mol, n)}
+Requested(mol, A) == UNION {SeqSet(mol.nodes[a].mods) : a \in A}                \* template indices asked for on these atoms
 
-NodeOK(mol, t, k, n) ==
-  LET tn == TNode(t, k)  mn == MNode(mol, n) IN
-  tn.ptm = mn.ptm /\ (IF tn.ptm THEN tn.el = mn.el ELSE tn.name = mn.name)
-
-RECURSIVE Extend(_, _, _, _, _)
-Extend(mol, t, within, f, todo) ==
+(* embeddings of a template: recursive extension of a partial map, induced on the atoms placed so far *)
+NodeOK(mol, t, k, n, byname) ==
+  LET tn == t.nodes[k]  mn == mol.nodes[n] IN
+  IF byname THEN tn.name = mn.name
+  ELSE tn.ptm = mn.ptm /\ (IF tn.ptm THEN tn.el = mn.el ELSE tn.name = mn.name)
+RECURSIVE Extend(_, _, _, _, _, _)
+Extend(mol, t, within, f, todo, byname) ==
   IF todo = <<>> THEN {f}
   ELSE LET k == Head(todo) IN
-       UNION {Extend(mol, t, within, (k :> n) @@ f, Tail(todo))
-              : n \in {x \in within : x \notin RangeOf(f) /\ NodeOK(mol, t, k, x) /\ \A p \in DOMAIN f : TAdj(t, p, k) = MAdj(mol, f[p], x)}}
+       UNION {Extend(mol, t, within, (k :> n) @@ f, Tail(todo), byname)
+              : n \in {x \in within : x \notin RangeOf(f) /\ NodeOK(mol, t, k, x, byname) /\ \A p \in DOMAIN f : TAdj(t, p, k) = MAdj(mol, f[p], x)}}
 EmptyMap == [x \in {} |-> 0]
-TEmb(mol, t, within) == Extend(mol, t, within, EmptyMap, [i \in DOMAIN t.nodes |-> t.nodes[i].key])
+TEmb(mol, t, within) == Extend(mol, t, within, EmptyMap, [i \in DOMAIN t.nodes |-> i], FALSE)
+NameEmb(mol, t, within) == Extend(mol, t, within, EmptyMap, [i \in DOMAIN t.nodes |-> i], TRUE)
+PtmSize(t) == Cardinality({k \in DOMAIN t.nodes : t.nodes[k].ptm})
 
-(* candidates and covers of one call *)
-ToCover(c) == UNION {SeqSet(c.ptms[i].atoms) \cup SeqSet(c.ptms[i].anchors) : i \in DOMAIN c.ptms}
-FlaggedToCover(c) == UNION {SeqSet(c.ptms[i].atoms) : i \in DOMAIN c.ptms}
-Avail(mol, c) == {n \in SeqSet(c.resnodes) : n \notin Flagged(mol)} \cup ToCover(c)
-Cands(mol, ts, c) == UNION {{[t |-> ti, f |-> g] : g \in {h \in TEmb(mol, ts[ti], SeqSet(c.resnodes)) : RangeOf(h) \subseteq Avail(mol, c)}} : ti \in DOMAIN ts}
+(* one call = the groups whose anchors lie in the same residues.  Its groups are either REQUESTED (their atoms carry the
+   requested modifications) or UNEXPLAINED (to be covered exactly by candidate placements)                                   *)
+ReqIdx(mol, c) == {j \in DOMAIN c.ptms : Requested(mol, SeqSet(c.ptms[j].atoms)) # {}}
+UnxIdx(mol, c) == DOMAIN c.ptms \ ReqIdx(mol, c)
+ToCover(mol, c) == UNION {SeqSet(c.ptms[j].atoms) \cup SeqSet(c.ptms[j].anchors) : j \in UnxIdx(mol, c)}
+FlaggedToCover(mol, c) == UNION {SeqSet(c.ptms[j].atoms) : j \in UnxIdx(mol, c)}
+AllAtoms(c) == UNION {SeqSet(c.ptms[j].atoms) : j \in DOMAIN c.ptms}
+AnchorRes(mol, c) == {mol.nodes[a].res : a \in UNION {SeqSet(c.ptms[j].anchors) : j \in DOMAIN c.ptms}}
+Within(mol, c) == {n \in Ids(mol) : mol.nodes[n].res \in AnchorRes(mol, c)}                 \* the residues the group touches
+Avail(mol, c) == {n \in Within(mol, c) : ~mol.nodes[n].ptm} \cup ToCover(mol, c)
+Cands(mol, ts, c) ==
+  LET W == Within(mol, c)  A == Avail(mol, c) IN
+  UNION {{[t |-> ti, f |-> g] : g \in {h \in TEmb(mol, ts[ti], W) : RangeOf(h) \subseteq A}} : ti \in DOMAIN ts}
 IsCover(mol, c, S) ==
-  /\ \A a \in FlaggedToCover(c) : Cardinality({s \in S : a \in RangeOf(s.f)}) = 1
-  /\ \A a \in ToCover(c) \ FlaggedToCover(c) : \E s \in S : a \in RangeOf(s.f)
-Coverable(mol, ts, c) == \E S \in SUBSET Cands(mol, ts, c) : IsCover(mol, c, S)
+  /\ \A a \in FlaggedToCover(mol, c) : Cardinality({s \in S : a \in RangeOf(s.f)}) = 1
+  /\ \A a \in ToCover(mol, c) \ FlaggedToCover(mol, c) : \E s \in S : a \in RangeOf(s.f)
+(* all exact covers, by branching on the lowest atom still to be covered *)
+RECURSIVE Exact(_, _, _, _)
+Exact(C, fl, rem, acc) ==
+  IF rem = {} THEN {acc}
+  ELSE LET a == CHOOSE x \in rem : \A y \in rem : x <= y IN
+       UNION {Exact(C, fl, rem \ RangeOf(s.f), acc \cup {s}) : s \in {x \in C : a \in RangeOf(x.f) /\ (RangeOf(x.f) \cap fl) \subseteq rem}}
+(* the documented preference: "(3, 2) > (3, 1, 1) > (2, 2, 1)", sizes = numbers of added atoms *)
+Cnt(ts, S, z) == Cardinality({s \in S : PtmSize(ts[s.t]) = z})
+Better(ts, S1, S2) == \E z \in 1..12 : Cnt(ts, S1, z) > Cnt(ts, S2, z) /\ \A y \in (z + 1)..12 : Cnt(ts, S1, y) = Cnt(ts, S2, y)
 
-RecMap(m) == [k \in {m[i][2] : i \in DOMAIN m} |-> m[CHOOSE i \in DOMAIN m : m[i][2] = k][1]]      \* template key -> molecule atom
+RecMap(m) == [k \in {m[i][2] : i \in DOMAIN m} |-> m[CHOOSE i \in DOMAIN m : m[i][2] = k][1]]      \* template node -> atom
 RecCover(c) == {[t |-> c.cover[i].t, f |-> RecMap(c.cover[i].match)] : i \in DOMAIN c.cover}
+(* the part of the recorded cover that places a requested modification on the atoms of requested group j *)
+RecFor(mol, c, j) == {s \in RecCover(c) : s.t \in Requested(mol, SeqSet(c.ptms[j].atoms)) /\ RangeOf(s.f) \subseteq SeqSet(c.ptms[j].atoms)}
+RecReq(mol, c) == UNION {RecFor(mol, c, j) : j \in ReqIdx(mol, c)}
+RecUnx(mol, c) == RecCover(c) \ RecReq(mol, c)
+
+(* a requested group is inside the specification when every requested modification has exactly one placement by name on
+   the atoms of the group and these placements account for all its atoms (unique atom names per residue)                   *)
+ReqSpecified(mol, ts, A) ==
+  /\ \A t \in Requested(mol, A) : t \in DOMAIN ts /\ Cardinality(NameEmb(mol, ts[t], A)) = 1
+  /\ A = UNION {RangeOf(CHOOSE g \in NameEmb(mol, ts[t], A) : TRUE) : t \in Requested(mol, A)}
+JudgeRequested(mol, ts, c, j) ==
+  LET A == SeqSet(c.ptms[j].atoms) IN
+  IF ~ReqSpecified(mol, ts, A) THEN "unjudged:requested-modification-has-no-unique-placement-by-name"
+  ELSE IF c.outcome # "identified" THEN "requested-modification-not-identified"
+  ELSE IF \E t \in Requested(mol, A) : {s.f : s \in {x \in RecFor(mol, c, j) : x.t = t}} # NameEmb(mol, ts[t], A)
+       THEN "requested-modification-not-placed-on-its-atoms"
+  ELSE "ok"
+
+CoversOf(C, mol, c) == LET fl == FlaggedToCover(mol, c) IN {S \in Exact(C, fl, fl, {}) : IsCover(mol, c, S)}
+(* verdict on the unexplained groups of one call, and whether the chosen cover respects the documented preference *)
+JudgeUnexplained(mol, ts, c) ==
+  IF UnxIdx(mol, c) = {}
+  THEN [v |-> IF RecUnx(mol, c) # {} THEN "modification-identified-where-nothing-is-unexplained" ELSE "ok", pref |-> TRUE]
+  ELSE LET C == Cands(mol, ts, c)
+           all == CoversOf(C, mol, c)
+           rec == RecUnx(mol, c) IN
+  IF all # {}
+  THEN IF c.outcome # "identified" THEN [v |-> "explainable-atoms-not-identified", pref |-> TRUE]
+       ELSE IF \E s \in rec : s \notin C THEN [v |-> "identified-modification-does-not-fit-there", pref |-> TRUE]
+       ELSE IF Cardinality(RecCover(c)) # Len(c.cover) THEN [v |-> "modification-identified-twice-at-one-place", pref |-> TRUE]
+       ELSE IF ~IsCover(mol, c, rec) THEN [v |-> "atom-not-covered-exactly-once", pref |-> TRUE]
+       ELSE [v |-> "ok", pref |-> ~\E S \in all : Better(ts, S, rec)]
+  ELSE [v |-> IF c.outcome = "identified" THEN "unexplainable-atoms-reported-as-identified" ELSE "ok", pref |-> TRUE]
 
 JudgeCall(mol, ts, c) ==
-  IF Coverable(mol, ts, c)
-  THEN IF c.outcome # "identified" THEN "explainable-atoms-not-identified"
-       ELSE IF \E s \in RecCover(c) : s \notin Cands(mol, ts, c) THEN "identified-modification-does-not-fit-there"
-       ELSE IF Cardinality(RecCover(c)) # Len(c.cover) THEN "modification-identified-twice-at-one-place"
-       ELSE IF ~IsCover(mol, c, RecCover(c)) THEN "atom-not-covered-exactly-once"
-       ELSE "ok"
-  ELSE IF c.outcome = "identified" THEN "unexplainable-atoms-reported-as-identified" ELSE "ok"
+  IF \E j \in ReqIdx(mol, c) : JudgeRequested(mol, ts, c, j) # "ok"
+  THEN [v |-> JudgeRequested(mol, ts, c, CHOOSE j \in ReqIdx(mol, c) : JudgeRequested(mol, ts, c, j) # "ok"), pref |-> TRUE]
+  ELSE JudgeUnexplained(mol, ts, c)
 
-FinalIds(e) == {e.final[i].id : i \in DOMAIN e.final}
-FinalOf(e, n) == e.final[CHOOSE i \in DOMAIN e.final : e.final[i].id = n]
-ResidOf(mol, n) == MNode(mol, n).resid
-TouchedResids(mol, c) == {ResidOf(mol, a) : a \in UNION {SeqSet(c.ptms[i].anchors) : i \in DOMAIN c.ptms}}
-
-\* some identified modification covers atom n with a template node that prescribes a new name
-RenamedByCover(e, n) ==
-  \E i \in DOMAIN e.calls :
-     /\ e.calls[i].outcome = "identified"
-     /\ \E s \in RecCover(e.calls[i]) : \E k \in DOMAIN s.f : s.f[k] = n /\ TNode(e.templates[s.t], k).newname # ""
+(* ---- the molecule afterwards ---- *)
+Present(e, n) == e.final[n].present
+Identified(e) == {i \in DOMAIN e.calls : e.calls[i].outcome = "identified"}
+Unknown(e) == {i \in DOMAIN e.calls : e.calls[i].outcome = "unknown"}
+(* residues in which every atom must carry the label of a placement of call c, and residues in which it may *)
+MustRes(mol, c) ==
+  {mol.nodes[a].res : a \in UNION {SeqSet(c.ptms[j].anchors) : j \in UnxIdx(mol, c)}}
+  \cup {mol.nodes[a].res : a \in UNION {SeqSet(c.ptms[j].atoms) : j \in ReqIdx(mol, c)}}
+MayRes(mol, c) == MustRes(mol, c) \cup AnchorRes(mol, c)
+(* values the identified placements prescribe for attribute k of atom n *)
+Prescribed(e, n, k) ==
+  UNION {UNION {{AttrOf(e.templates[s.t].nodes[q].rep, k) : q \in {x \in DOMAIN s.f : s.f[x] = n /\ AttrOf(e.templates[s.t].nodes[x].rep, k) # "absent"}}
+                \cup (IF k = "atomname"
+                      THEN {"s:" \o e.templates[s.t].nodes[q].name : q \in {x \in DOMAIN s.f : s.f[x] = n /\ e.templates[s.t].nodes[x].ptm
+                                                                                   /\ AttrOf(e.templates[s.t].nodes[x].rep, k) = "absent"}}
+                      ELSE {})
+                : s \in RecCover(e.calls[i])} : i \in Identified(e)}
+Keys(e) == {"atomname"} \cup UNION {UNION {{t.nodes[q].rep[r][1] : r \in DOMAIN t.nodes[q].rep} : q \in DOMAIN t.nodes} : t \in SeqSet(e.templates)}
+WrongAttr(e, n, k) ==
+  LET P == Prescribed(e, n, k)  have == AttrOf(e.final[n].attrs, k) IN
+  IF P = {} THEN have # AttrOf(e.mol.nodes[n].attrs, k) ELSE have \notin P
+LabelJustified(e, n, l) ==
+  \/ l \in SeqSet(e.mol.nodes[n].mods)
+  \/ \E i \in Identified(e) : e.mol.nodes[n].res \in MayRes(e.mol, e.calls[i]) /\ \E s \in RecCover(e.calls[i]) : s.t = l
+At(n) == " atom=" \o ToString(n)
 
 JudgeRun(e) ==
-  LET mol == e.mol  ts == e.templates IN
-  IF {SeqSet(e.calls[i].ptms[j].atoms) : <<i, j>> \in {p \in (DOMAIN e.calls) \X (1..20) : p[2] \in DOMAIN e.calls[p[1]].ptms}} # Components(mol)
+  LET mol == e.mol  ts == e.templates
+      cv == [i \in DOMAIN e.calls |-> JudgeCall(mol, ts, e.calls[i])] IN
+  IF {SeqSet(e.calls[p[1]].ptms[p[2]].atoms) : p \in {q \in (DOMAIN e.calls) \X (1..40) : q[2] \in DOMAIN e.calls[q[1]].ptms}} # Components(mol)
   THEN "groups-of-unexplained-atoms-differ"
   ELSE IF \E i \in DOMAIN e.calls : \E j \in DOMAIN e.calls[i].ptms :
             SeqSet(e.calls[i].ptms[j].anchors) # AnchorsOf(mol, SeqSet(e.calls[i].ptms[j].atoms)) THEN "anchors-differ"
-  ELSE IF \E i \in DOMAIN e.calls : JudgeCall(mol, ts, e.calls[i]) # "ok"
-       THEN JudgeCall(mol, ts, e.calls[CHOOSE i \in DOMAIN e.calls : JudgeCall(mol, ts, e.calls[i]) # "ok"])
-  ELSE IF \E i \in DOMAIN e.calls : e.calls[i].outcome = "unknown" /\ \E a \in FlaggedToCover(e.calls[i]) : a \in FinalIds(e)
+  ELSE IF \E i \in DOMAIN e.calls : cv[i].v # "ok" THEN cv[CHOOSE i \in DOMAIN e.calls : cv[i].v # "ok"].v
+  ELSE IF \E i \in Unknown(e) : \E a \in FlaggedToCover(mol, e.calls[i]) : Present(e, a)
        THEN "unexplained-atom-silently-kept"
-  ELSE IF (\E i \in DOMAIN e.calls : e.calls[i].outcome = "unknown") /\ e.warnings = 0 THEN "atoms-removed-without-warning"
-  ELSE IF \E i \in DOMAIN e.calls : e.calls[i].outcome = "identified" /\ \E a \in FlaggedToCover(e.calls[i]) : a \notin FinalIds(e)
+  ELSE IF e.warnings < Cardinality(Unknown(e)) THEN "atoms-removed-without-warning"
+  ELSE IF Unknown(e) = {} /\ e.warnings > 0 THEN "unknown-input-warning-although-nothing-was-removed"
+  ELSE IF \E i \in Identified(e) : \E a \in AllAtoms(e.calls[i]) : ~Present(e, a)
        THEN "explained-atom-removed"
-  ELSE IF \E n \in FinalIds(e) : n \notin Flagged(mol) /\ ~RenamedByCover(e, n) /\ FinalOf(e, n).name # MNode(mol, n).name
-       THEN "recognised-atom-renamed-without-reason"
-  ELSE IF \E i \in DOMAIN e.calls : e.calls[i].outcome = "identified" /\ \E s \in RecCover(e.calls[i]) : \E k \in DOMAIN s.f :
-             LET tn == TNode(ts[s.t], k)
-                 want == IF tn.newname # "" THEN tn.newname ELSE IF tn.ptm THEN tn.name ELSE MNode(mol, s.f[k]).name
-             IN FinalOf(e, s.f[k]).name # want
-       THEN "atom-does-not-carry-the-canonical-name"
-  ELSE IF \E i \in DOMAIN e.calls : e.calls[i].outcome = "identified" /\ \E s \in RecCover(e.calls[i]) :
-             \E n \in FinalIds(e) : ResidOf(mol, n) \in TouchedResids(mol, e.calls[i]) /\ ts[s.t].name \notin SeqSet(FinalOf(e, n).labels)
+  ELSE IF \E n \in Ids(mol) : n \notin Unexplained(mol) /\ ~Present(e, n)
+       THEN "recognised-atom-removed" \o At(CHOOSE n \in Ids(mol) : n \notin Unexplained(mol) /\ ~Present(e, n))
+  ELSE IF \E n \in Ids(mol) : Present(e, n) /\ \E k \in Keys(e) : WrongAttr(e, n, k)
+       THEN LET n == CHOOSE x \in Ids(mol) : Present(e, x) /\ \E k \in Keys(e) : WrongAttr(e, x, k) IN
+            (IF Prescribed(e, n, CHOOSE k \in Keys(e) : WrongAttr(e, n, k)) = {} THEN "atom-changed-without-reason"
+             ELSE "atom-does-not-carry-the-canonical-name-or-replaced-attribute") \o At(n)
+  ELSE IF \E i \in Identified(e) : \E s \in RecCover(e.calls[i]) :
+             \E n \in Ids(mol) : Present(e, n) /\ mol.nodes[n].res \in MustRes(mol, e.calls[i]) /\ s.t \notin SeqSet(e.final[n].labels)
        THEN "atom-of-a-touched-residue-not-labelled"
-  ELSE IF \E n \in FinalIds(e) : \E l \in SeqSet(FinalOf(e, n).labels) :
-             ~\E i \in DOMAIN e.calls : e.calls[i].outcome = "identified" /\ ResidOf(mol, n) \in TouchedResids(mol, e.calls[i])
-                                         /\ \E s \in RecCover(e.calls[i]) : ts[s.t].name = l
-       THEN "label-without-identified-modification"
+  ELSE IF \E n \in Ids(mol) : Present(e, n) /\ \E l \in SeqSet(mol.nodes[n].mods) : l \notin SeqSet(e.final[n].labels)
+       THEN "requested-label-lost"
+  ELSE IF \E n \in Ids(mol) : Present(e, n) /\ \E l \in SeqSet(e.final[n].labels) : ~LabelJustified(e, n, l)
+       THEN "label-without-identified-modification" \o At(CHOOSE n \in Ids(mol) : Present(e, n) /\ \E l \in SeqSet(e.final[n].labels) : ~LabelJustified(e, n, l))
+  ELSE IF \E i \in DOMAIN e.calls : ~cv[i].pref THEN "exact-cover-does-not-prefer-the-larger-modification"
   ELSE "ok"
+
+(* observation, not part of the verdict: unrecognised atoms that RepairGraph removed from a residue carrying a request
+   (a request states what the residue shall be); no log record accompanies the removal                                    *)
+Note(e) == IF Len(e.dropped) > 0 THEN "atoms-dropped-by-request:" \o ToString(Len(e.dropped)) ELSE ""
 =============================================================================
